@@ -78,6 +78,11 @@ func (c *cliCfg) outPath(dir string) string {
 		return filepath.Join(dir, "no-such-dir", "out.txt")
 	case "dir":
 		return dir
+	case "in0":
+		// -o names the first input file itself (in-place use: `jd -p -o a.json patch a.json`, `jd -t yaml2json -o doc doc`)
+		return cliArgPath(dir, 0)
+	case "in1":
+		return cliArgPath(dir, 1)
 	}
 	return ""
 }
@@ -322,8 +327,19 @@ func (b *cliBins) exec(c *cliCfg, dir string) cliObs {
 			o.Note = "timeout"
 		}
 	}
-	if c.OKind == "file" || c.OKind == "nodir" {
-		if bs, err := os.ReadFile(c.outPath(dir)); err == nil && string(bs) != cliStale {
+	if c.OKind == "file" || c.OKind == "nodir" || c.OKind == "in0" || c.OKind == "in1" {
+		inputUntouched := func(bs []byte) bool {
+			// -o names an input file and the run failed: the file still holding the input was not written
+			if c.OKind != "in0" && c.OKind != "in1" {
+				return false
+			}
+			i := 0
+			if c.OKind == "in1" {
+				i = 1
+			}
+			return o.Exit == 2 && i < len(c.Args) && string(bs) == c.Args[i].Content
+		}
+		if bs, err := os.ReadFile(c.outPath(dir)); err == nil && string(bs) != cliStale && !inputUntouched(bs) {
 			// (a file still holding exactly the stale content was not written)
 			s := string(bs)
 			o.Outfile = &s
@@ -500,11 +516,15 @@ func cliLibResults(c *cliCfg, plan cliPlan, dir string) *cliRes {
 	if c.OKind != "" {
 		// what WriteFile(*output, …) returns for this path
 		p := c.outPath(dir)
-		err := os.WriteFile(p, []byte{}, 0644)
-		if err == nil {
-			os.Remove(p)
+		if c.OKind == "in0" || c.OKind == "in1" {
+			r.unit("wr", nil) // an existing, writable input file: left untouched here
+		} else {
+			err := os.WriteFile(p, []byte{}, 0644)
+			if err == nil {
+				os.Remove(p)
+			}
+			r.unit("wr", err)
 		}
-		r.unit("wr", err)
 	}
 	if plan.None {
 		return r
@@ -1175,6 +1195,10 @@ func cliTwin(c *cliCfg) *cliCfg {
 	default:
 		return nil
 	}
+	if t.OKind == "in0" || t.OKind == "in1" {
+		// the twin has other file arguments: its output goes to a file of its own
+		t.OKind = "file"
+	}
 	return &t
 }
 
@@ -1683,6 +1707,9 @@ func genCliCfg(r *Rng) *cliCfg {
 			c.OKind = "file"
 		}
 		cliSecond(r, c, c.docText(r, a), c.docText(r, b))
+		if c.OKind == "file" && r.Chance(1, 3) {
+			c.OKind = fmt.Sprintf("in%d", r.Intn(len(c.Args))) // the output replaces one of the inputs
+		}
 	case k < 56: // patch mode
 		c.Kind = "patch"
 		g := cliOptionFlags(r, c)
@@ -1702,6 +1729,9 @@ func genCliCfg(r *Rng) *cliCfg {
 			c.OKind = "file"
 		}
 		cliSecond(r, c, dt, c.docText(r, doc))
+		if c.OKind == "file" && r.Chance(1, 2) {
+			c.OKind = fmt.Sprintf("in%d", len(c.Args)-1) // patch in place: the last file argument is overwritten
+		}
 	case k < 68: // translate
 		c.Kind = "translate"
 		c.T = cliPick(r, "jd2patch", "patch2jd", "jd2merge", "merge2jd", "json2yaml", "yaml2json")
@@ -1748,6 +1778,9 @@ func genCliCfg(r *Rng) *cliCfg {
 			c.Args = []cliArg{}
 		} else {
 			c.Args = []cliArg{{Content: in}}
+			if c.OKind == "file" && r.Chance(1, 2) {
+				c.OKind = "in0" // translate in place
+			}
 		}
 	case k < 76: // git diff driver
 		c.Kind = "git-diff-driver"
